@@ -105,7 +105,8 @@ class C13(Check):
                    "sens_jacobian_state, shapeAdjust, vecToMatSens/matToVecSens under them) run on symbolic augmented vectors z, time and "
                    "parameters; the oracle is [f, vec(J S + G), vec_F(J S0)] built from the Expr differentiator in the documented layout and the "
                    "Jacobian obtained by differentiating that oracle w.r.t. every component of z.  z3 proves equality entry by entry for all "
-                   "points and sensitivity values, for both arrangements, with and without parameters.")
+                   "points and sensitivity values, for both arrangements, with and without parameters.  Every unit then changes the parameter VALUES and "
+                   "evaluates again at the same point (nothing computed for the old values may survive) and checks that the vector handed in is unchanged.")
     assumptions = ["'integrating them yields dx/dtheta matching finite differences' = existence/uniqueness theory + C02's integrator assumption (not sampled)",
                    "floats as reals; denominators non-zero"]
 
